@@ -10,6 +10,7 @@ import (
 	"fmt"
 	"go/ast"
 	"go/format"
+	"go/parser"
 	"go/token"
 	"go/types"
 	"os"
@@ -26,6 +27,7 @@ const simPath = "verifsim/simrt"
 
 type rewriter struct {
 	fset   *token.FileSet
+	pkg    *types.Package
 	info   *types.Info
 	sites  []string
 	errs   []string
@@ -191,7 +193,7 @@ func (r *rewriter) file(f *ast.File) {
 			}
 		case *ast.UnaryExpr:
 			if n.Op == token.ARROW && !handled[n] {
-				r.errf(n, "channel receive nested inside an expression is not supported by the rewriter")
+				r.nestedRecv(c, n)
 			}
 		case *ast.GoStmt:
 			r.goStmt(c, n)
@@ -227,9 +229,13 @@ func (r *rewriter) file(f *ast.File) {
 			r.counts["recv"]++
 		case *ast.SelectStmt:
 			r.selectStmt(c, n)
+		case *ast.LabeledStmt:
+			if sel, ok := n.Stmt.(*ast.SelectStmt); ok {
+				c.Replace(r.selectBlock(sel, n.Label))
+			}
 		case *ast.RangeStmt:
 			if r.isChan(n.X) {
-				r.errf(n, "range over a channel is not supported by the rewriter")
+				r.chanRange(c, n)
 			} else if r.isMap(n.X) {
 				r.mapRange(c, n)
 			}
@@ -273,6 +279,43 @@ func (r *rewriter) goStmt(c *astutil.Cursor, n *ast.GoStmt) {
 	c.Replace(&ast.ExprStmt{X: call(sim(name), args...)})
 }
 
+// nestedRecv turns a receive inside a larger expression into an immediately
+// invoked function literal of the element type, so that it cannot escape the model.
+func (r *rewriter) nestedRecv(c *astutil.Cursor, n *ast.UnaryExpr) {
+	t := r.info.TypeOf(n)
+	if t == nil {
+		r.errf(n, "cannot type a nested channel receive")
+		return
+	}
+	if _, isTuple := t.(*types.Tuple); isTuple {
+		r.errf(n, "comma-ok channel receive nested inside a statement header is not supported by the rewriter")
+		return
+	}
+	ts := types.TypeString(t, func(p *types.Package) string {
+		if p == r.pkg {
+			return ""
+		}
+		return p.Name()
+	})
+	texpr, err := parser.ParseExpr(ts)
+	if err != nil {
+		r.errf(n, "cannot print type %s of a nested channel receive", ts)
+		return
+	}
+	r.counts["nested-recv"]++
+	tok := r.name("t")
+	val := r.name("v")
+	lit := &ast.FuncLit{
+		Type: &ast.FuncType{Params: &ast.FieldList{}, Results: &ast.FieldList{List: []*ast.Field{{Type: texpr}}}},
+		Body: &ast.BlockStmt{List: []ast.Stmt{
+			&ast.AssignStmt{Lhs: []ast.Expr{tok}, Tok: token.DEFINE, Rhs: []ast.Expr{call(sim("ChanPre"), r.site(n, "recv"), n.X, intLit(0))}},
+			&ast.AssignStmt{Lhs: []ast.Expr{val}, Tok: token.DEFINE, Rhs: []ast.Expr{&ast.UnaryExpr{Op: token.ARROW, X: n.X}}},
+			&ast.ExprStmt{X: call(sim("ChanPost"), tok)},
+			&ast.ReturnStmt{Results: []ast.Expr{val}},
+		}}}
+	c.Replace(&ast.CallExpr{Fun: lit})
+}
+
 func exprString(e ast.Expr) string {
 	var b bytes.Buffer
 	format.Node(&b, token.NewFileSet(), e)
@@ -288,9 +331,13 @@ func exprString(e ast.Expr) string {
 
 func (r *rewriter) selectStmt(c *astutil.Cursor, n *ast.SelectStmt) {
 	if _, ok := c.Parent().(*ast.LabeledStmt); ok {
-		r.errf(n, "labeled select is not supported by the rewriter")
-		return
+		return // rewritten when the LabeledStmt itself is visited
 	}
+	c.Replace(r.selectBlock(n, nil))
+}
+
+// selectBlock builds `{ c0 := ch0; ...; i, t := simrt.Select(...); [label:] switch i {...} }`.
+func (r *rewriter) selectBlock(n *ast.SelectStmt, label *ast.Ident) *ast.BlockStmt {
 	r.counts["select"]++
 	var pre []ast.Stmt
 	var cases []ast.Expr
@@ -318,7 +365,7 @@ func (r *rewriter) selectStmt(c *astutil.Cursor, n *ast.SelectStmt) {
 			u := recvOfStmt(s)
 			if u == nil {
 				r.errf(cc, "unrecognised select communication clause")
-				return
+				return &ast.BlockStmt{}
 			}
 			chExpr = u.X
 			u.X = chv
@@ -338,9 +385,72 @@ func (r *rewriter) selectStmt(c *astutil.Cursor, n *ast.SelectStmt) {
 	args := append([]ast.Expr{r.site(n, "select"), ast.NewIdent(def)}, cases...)
 	pre = append(pre,
 		&ast.AssignStmt{Lhs: []ast.Expr{idx, tok}, Tok: token.DEFINE, Rhs: []ast.Expr{call(sim("Select"), args...)}},
-		&ast.AssignStmt{Lhs: []ast.Expr{ast.NewIdent("_")}, Tok: token.ASSIGN, Rhs: []ast.Expr{tok}},
-		sw)
-	c.Replace(&ast.BlockStmt{List: pre})
+		&ast.AssignStmt{Lhs: []ast.Expr{ast.NewIdent("_")}, Tok: token.ASSIGN, Rhs: []ast.Expr{tok}})
+	if label != nil {
+		pre = append(pre, &ast.LabeledStmt{Label: label, Stmt: sw})
+	} else {
+		pre = append(pre, sw)
+	}
+	return &ast.BlockStmt{List: pre}
+}
+
+// chanRange rewrites `for v := range ch { body }` into an explicit receive loop.
+func (r *rewriter) chanRange(c *astutil.Cursor, n *ast.RangeStmt) {
+	r.counts["chanrange"]++
+	chv := r.name("c")
+	tok := r.name("t")
+	okv := r.name("ok")
+	var recv ast.Stmt
+	rx := &ast.UnaryExpr{Op: token.ARROW, X: chv}
+	isBlank := n.Key == nil
+	if id, ok := n.Key.(*ast.Ident); ok && id.Name == "_" {
+		isBlank = true
+	}
+	if isBlank {
+		recv = &ast.AssignStmt{Lhs: []ast.Expr{ast.NewIdent("_"), okv}, Tok: token.DEFINE, Rhs: []ast.Expr{rx}}
+	} else if n.Tok == token.ASSIGN {
+		recv = &ast.AssignStmt{Lhs: []ast.Expr{n.Key, okv}, Tok: token.ASSIGN, Rhs: []ast.Expr{rx}}
+	} else {
+		recv = &ast.AssignStmt{Lhs: []ast.Expr{n.Key, okv}, Tok: token.DEFINE, Rhs: []ast.Expr{rx}}
+	}
+	var body []ast.Stmt
+	if n.Tok == token.ASSIGN && !isBlank {
+		body = append(body, &ast.DeclStmt{Decl: &ast.GenDecl{Tok: token.VAR, Specs: []ast.Spec{&ast.ValueSpec{Names: []*ast.Ident{okv}, Type: ast.NewIdent("bool")}}}})
+	}
+	body = append(body,
+		&ast.AssignStmt{Lhs: []ast.Expr{tok}, Tok: token.DEFINE, Rhs: []ast.Expr{call(sim("ChanPre"), r.site(n, "range chan"), chv, intLit(0))}},
+		recv,
+		&ast.ExprStmt{X: call(sim("ChanPost"), tok)},
+		&ast.IfStmt{Cond: &ast.UnaryExpr{Op: token.NOT, X: okv}, Body: &ast.BlockStmt{List: []ast.Stmt{&ast.BranchStmt{Tok: token.BREAK}}}})
+	body = append(body, n.Body.List...)
+	loop := &ast.ForStmt{Body: &ast.BlockStmt{List: body}}
+	if _, ok := c.Parent().(*ast.LabeledStmt); ok {
+		// keep the label on the loop; the channel expression is evaluated per
+		// iteration (it must be side-effect free)
+		ast.Inspect(loop, func(x ast.Node) bool {
+			if id, ok := x.(*ast.Ident); ok && id == chv {
+				return false
+			}
+			return true
+		})
+		for _, st := range body {
+			replaceIdent(st, chv, n.X)
+		}
+		c.Replace(loop)
+		return
+	}
+	c.Replace(&ast.BlockStmt{List: []ast.Stmt{
+		&ast.AssignStmt{Lhs: []ast.Expr{chv}, Tok: token.DEFINE, Rhs: []ast.Expr{n.X}},
+		loop}})
+}
+
+func replaceIdent(root ast.Node, id *ast.Ident, with ast.Expr) {
+	astutil.Apply(root, nil, func(c *astutil.Cursor) bool {
+		if x, ok := c.Node().(*ast.Ident); ok && x == id {
+			c.Replace(with)
+		}
+		return true
+	})
 }
 
 func (r *rewriter) mapRange(c *astutil.Cursor, n *ast.RangeStmt) {
@@ -443,7 +553,7 @@ func main() {
 		}
 		os.Exit(2)
 	}
-	r := &rewriter{fset: pkg.Fset, info: pkg.TypesInfo, counts: map[string]int{}}
+	r := &rewriter{fset: pkg.Fset, pkg: pkg.Types, info: pkg.TypesInfo, counts: map[string]int{}}
 	for i, f := range pkg.Syntax {
 		before := len(r.sites)
 		r.file(f)
